@@ -15,6 +15,7 @@
 package transport
 
 import (
+	"crypto/tls"
 	"encoding/binary"
 	"io"
 	"net"
@@ -194,6 +195,12 @@ func (p *conn) handshake() error {
 	if h.Proto != p.proto.Peer {
 		_ = p.c.Close()
 		return mangos.ErrBadProto
+	}
+	// On a TLS connection the cryptographic handshake runs with the first
+	// I/O, which is ours.  A listener accepts the connection before that,
+	// so only now can the negotiated state be recorded for the pipe.
+	if tc, ok := p.c.(*tls.Conn); ok {
+		p.options[mangos.OptionTLSConnState] = tc.ConnectionState()
 	}
 	p.Lock()
 	p.open = true
